@@ -20,9 +20,9 @@ from .. import render_common as rc
 PROP = "C03"
 THEOREMS = ["insert_pop_restores", "insert_minus_one_restores", "isolated_copy_hides", "not_isolated_hides_everything"]
 
-PROFILE = dict(collide=0.8, p_only=0.25, w_with=3, w_for=2, w_slot=4, w_comp=5, p_data_alias=0.5, p_default_alias=0.2,
+PROFILE = dict(parentloop_in_fill=True, collide=0.8, p_only=0.25, w_with=3, w_for=2, w_slot=4, w_comp=5, p_data_alias=0.5, p_default_alias=0.2,
                p_fill_in_ctl=0.5, p_forloop_print=0.35)
-REGIONS = ["forloop-layer-leaks-into-isolated", "django-only-fill-loses-outer", "django-slot-owner-override",
+REGIONS = ["captured-parentloop-aliased", "forloop-layer-leaks-into-isolated", "django-only-fill-loses-outer", "django-slot-owner-override",
            "django-captured-over-data"]
 
 
@@ -31,8 +31,12 @@ def run_programs(chk, n):
     for i in range(n):
         g = tplgen.Gen(core.rng(PROP, "programs", i), PROFILE)
         p = g.program()
+        if i % 4 == 3:
+            # the mode comes from the registry's own settings; the global setting says the opposite
+            p["own_registry"] = True
         progs.append(p)
-        chk.branch(list(g.features.keys()) + ["mode:" + ("isolated" if p["isolated"] else "django")])
+        chk.branch(list(g.features.keys()) + ["mode:" + ("isolated" if p["isolated"] else "django"),
+                                              "registry:own" if p.get("own_registry") else "registry:default"])
     reps = rc.batch(progs)
     for p, (rep, sp) in zip(progs, reps):
         real = tplgen.run_real(p, limit=3.0)
